@@ -314,7 +314,17 @@ impl Ctx {
                 caps.sort_unstable();
                 caps.dedup();
                 for &cap in &caps {
-                    let cursors: Vec<usize> = if variant == "plain" || variant == "trailing-blanks" { (0..=nchars).collect() } else { vec![nchars, nchars.saturating_sub(1)] };
+                    let mut cursors: Vec<usize> = if variant == "plain" || variant == "trailing-blanks" { (0..=nchars).collect() } else { vec![nchars, nchars.saturating_sub(1)] };
+                    if cursors.len() > 24 {
+                        // a very long word: both ends, the middle and a few positions in between
+                        let mut keep: Vec<usize> = vec![0, 1, 2, nchars / 2, nchars - 2, nchars - 1, nchars];
+                        for _ in 0..6 {
+                            keep.push(rng.below(nchars + 1));
+                        }
+                        keep.sort_unstable();
+                        keep.dedup();
+                        cursors = keep;
+                    }
                     for cur in cursors {
                         let left = nchars - cur;
                         let l2 = line.clone();
